@@ -35,24 +35,34 @@ ASSUMPTIONS = [
 EXECUTORS = ["schedule"] * 12 + ["single-threaded"] * 3 + ["threads"] * 4
 
 
-def case_strategy(profile="dag", opts=None, max_ops=6, executors=None, allow_processes=False):
+def case_strategy(profile="dag", opts=None, max_ops=6, executors=None, allow_processes=False, min_ops=0, force=None):
     from hypothesis import strategies as st
 
     ex = list(executors or EXECUTORS)
 
     @st.composite
     def cases(draw):
-        prog = draw(P.programs(profile, max_ops=max_ops, opts=opts))
+        prog = draw(P.programs(profile, max_ops=max_ops, min_ops=min_ops, opts=opts))
         e = draw(st.sampled_from(ex))
         if allow_processes and draw(st.integers(0, 49)) == 0:
             e = "processes"
-        return {
+        case = {
             "kind": "program",
             "prog": prog,
             "executor": e,
             "optimize": draw(st.booleans()),
             "perm_seed": draw(st.integers(0, 10**6)),
         }
+        if e in ("threads", "processes"):
+            # executor options: batching and parallel generations change how tasks are submitted
+            case["exec_opts"] = {"batch_size": draw(st.sampled_from([None, None, 1, 2, 3])), "compute_arrays_in_parallel": draw(st.booleans())}
+        if force:
+            # a shard may pin options (e.g. several batches per operation on the processes executor, unoptimized plans)
+            if "optimize" in force:
+                case["optimize"] = force["optimize"]
+            if "batch" in force and "exec_opts" in case:
+                case["exec_opts"]["batch_size"] = draw(st.sampled_from(force["batch"]))
+        return case
 
     return cases()
 
@@ -96,7 +106,8 @@ def run_case(case):
     if ename == "schedule":
         ex = H.ScheduleExecutor(H.Schedule(perm_seed=case.get("perm_seed")))
     else:
-        ex = H.make_executor(ename, max_workers=2)
+        eo = {k: v for k, v in (case.get("exec_opts") or {}).items() if v is not None}
+        ex = H.make_executor(ename, max_workers=2, **eo)
     ctx = None
     if ename == "processes":
         from zarr.storage import LocalStore
@@ -177,11 +188,15 @@ def shards(tier):
     if tier == "quick":
         return [{"kind": "program", "name": f"dag{i}", "n": 110, "profile": "dag", "rotate": i * 23} for i in range(6)] + [
             {"kind": "program", "name": f"focus-{fam}", "n": 120, "profile": "dag", "rotate": 3 + j * 17, "focus": fam, "max_ops": 2} for j, fam in enumerate(FOCUS)] + [
-            {"kind": "program", "name": "proc", "n": 6, "profile": "dag", "executors": ["processes"], "max_ops": 3, "rotate": 5}
+            {"kind": "program", "name": "proc", "n": 8, "profile": "dag", "executors": ["processes"], "max_ops": 3, "rotate": 5},
+            {"kind": "program", "name": "proc-batch", "n": 14, "profile": "fusion-rich", "executors": ["processes"], "max_ops": 3, "min_ops": 2, "rotate": 8,
+             "force": {"optimize": False, "batch": [1, 2]}},
         ]
     out = [{"kind": "program", "name": f"dag{i}", "n": 2600, "profile": "dag", "rotate": i * 11} for i in range(13)]
     out += [{"kind": "program", "name": f"focus-{fam}-{i}", "n": 2500, "profile": "dag", "rotate": 3 + j * 17 + i * 29, "focus": fam, "max_ops": 2} for j, fam in enumerate(FOCUS) for i in range(2)]
-    out += [{"kind": "program", "name": "proc", "n": 150, "profile": "dag", "executors": ["processes"], "max_ops": 3, "rotate": 3}]
+    out += [{"kind": "program", "name": "proc", "n": 150, "profile": "dag", "executors": ["processes"], "max_ops": 3, "rotate": 3},
+            {"kind": "program", "name": "proc-batch", "n": 150, "profile": "fusion-rich", "executors": ["processes"], "max_ops": 3, "min_ops": 2, "rotate": 8,
+             "force": {"optimize": False, "batch": [1, 2]}}]
     return out
 
 
@@ -193,7 +208,7 @@ def run_shard(spec, seed, tier) -> Acc:
     opts = {"rotate": spec.get("rotate", 0)}
     if spec.get("focus"):
         opts["only_ops"] = focus_ops(spec["focus"])
-    strat = case_strategy(spec.get("profile", "dag"), opts=opts, max_ops=spec.get("max_ops", 6), executors=spec.get("executors"))
+    strat = case_strategy(spec.get("profile", "dag"), opts=opts, max_ops=spec.get("max_ops", 6), executors=spec.get("executors"), min_ops=spec.get("min_ops", 0), force=spec.get("force"))
     core.hyp_run(strat, check_case, seed=seed, max_examples=spec["n"], acc=acc, budget_s=420 if tier == "quick" else 3000,
                  shrink=(tier == "thorough"), is_known=is_known)
     acc.extra["generation"] = dict(P.GEN_STATS)
